@@ -12,6 +12,94 @@ T = 'sim::asio::high_resolution_timer'
 S = 'sim::simulation'
 
 
+def arming_sequence_idiom(run):
+    """The queue may order equal expiries by an ARMING SEQUENCE instead of by insertion order: add_timer() inserts the timer
+    inside the equal range of its expiry (std::equal_range with timer_compare) in front of the first entry whose sequence
+    is greater; the sequence is written only by the arming functions, from a counter that only grows, before the timer
+    is queued.  Returns (holds, why_not)."""
+    fx = run.fx
+    at = fx.fn1(S + '::add_timer')
+    ins = [c for c in at.calls() if (c.get('callee') or '').endswith('::insert') and q.render(at, c.get('obj')) == 'm_timer_queue']
+    if len(ins) != 1:
+        return False, 'add_timer does not insert exactly once'
+    it = q.strip_casts(ins[0]['args'][0])
+    while is_node(it) and it['k'] == 'construct' and len(it.get('args', [])) == 1:
+        it = q.strip_casts(it['args'][0])
+    if not (is_node(it) and it['k'] == 'ref' and it.get('dk') == 'local'):
+        return False, 'the insertion point is not a local'
+    ds = q.local_defs(at, it['did'])
+    src = q.strip_casts(ds[0][1]) if len(ds) == 1 else None
+    while is_node(src) and src['k'] == 'construct' and len(src.get('args', [])) == 1:
+        src = q.strip_casts(src['args'][0])
+    if not (is_node(src) and src['k'] == 'call' and q.callee_name(src) == 'std::find_if' and len(src.get('args', [])) == 3):
+        return False, 'the insertion point is not std::find_if over the equal range'
+    ends = [q.strip_casts(a_) for a_ in src['args'][:2]]
+    rng = None
+    for e_ in ends:
+        while is_node(e_) and e_['k'] == 'construct' and len(e_.get('args', [])) == 1:
+            e_ = q.strip_casts(e_['args'][0])
+        b_ = e_.get('base') if is_node(e_) and e_['k'] == 'member' else None
+        b_ = q.strip_casts(b_) if is_node(b_) else None
+        if not (is_node(b_) and b_['k'] == 'ref' and b_.get('dk') == 'local'):
+            return False, 'find_if does not run over the two ends of one local range'
+        rng = b_['did'] if rng in (None, b_['did']) else -1
+    if rng in (None, -1) or [q.render(at, a_).split('.')[-1] for a_ in src['args'][:2]] != ['first', 'second']:
+        return False, 'find_if does not run from range.first to range.second'
+    rd = q.local_defs(at, rng)
+    rsrc = q.strip_casts(rd[0][1]) if len(rd) == 1 else None
+    while is_node(rsrc) and rsrc['k'] == 'construct' and len(rsrc.get('args', [])) == 1:
+        rsrc = q.strip_casts(rsrc['args'][0])
+    a = [q.render(at, x) for x in rsrc.get('args', [])] if is_node(rsrc) and rsrc['k'] == 'call' else []
+    if not (is_node(rsrc) and q.callee_name(rsrc) == 'std::equal_range' and len(a) == 4 and a[0] == 'm_timer_queue.begin()' and a[1] == 'm_timer_queue.end()' and 'timer_compare' in a[3]):
+        return False, 'the range is not std::equal_range(begin, end, t, timer_compare())'
+    lams = [lf for lf in fx.lambdas_in(at)]
+    okp = False
+    for lf in lams:
+        for r_ in q.returns(lf):
+            c_ = q.cmp_atom(r_.get('e')) if r_.get('e') is not None else None
+            if not c_:
+                continue
+            sides = [q.render(lf, q.strip_casts(x)) for x in c_[1:]]
+            # a captured local standing for the timer's own sequence (`auto const seq = t->armed_seq();`)
+            for k_ in (0, 1):
+                v_ = q.local_var(at, sides[k_]) if sides[k_].isidentifier() else None
+                if v_ and v_.get('init') is not None and q.render(at, v_['init']).endswith('armed_seq()'):
+                    sides[k_] = q.render(at, v_['init'])
+            pn = lf.params[0].get('name') if lf.params else None
+            op = c_[0]
+            if pn and sides[0].startswith(pn + '->') and sides[0].endswith('armed_seq()') and sides[1].endswith('armed_seq()') and not sides[1].startswith(pn + '->') and op == '>':
+                okp = True
+            if pn and sides[1].startswith(pn + '->') and sides[1].endswith('armed_seq()') and sides[0].endswith('armed_seq()') and not sides[0].startswith(pn + '->') and op == '<':
+                okp = True
+    if not okp:
+        return False, 'the predicate is not "the entry\'s arming sequence is greater than the timer\'s" (strictly)'
+    # the sequence: written by the arming functions only, from a growing counter, before the timer is queued
+    writers = {}
+    for fn in fx.repo_functions():
+        for ac in q.field_accesses(fn, {T + '::m_armed_seq'}):
+            if ac.is_write:
+                writers.setdefault(q.top_function(fx, fn).norm, []).append((fn, ac))
+    writers = {w: l for w, l in writers.items() if w not in (T + '::high_resolution_timer', T + '::operator=')}      # (constructed with sequence 0: not armed yet; the defaulted move transfers it)
+    if set(writers) != {T + '::expires_at', T + '::expires_after'}:
+        return False, 'm_armed_seq is written by %s, not by exactly expires_at / expires_after' % sorted(writers)
+    for w, lst in writers.items():
+        for fn, ac in lst:
+            rhs = ac.site.get('rhs') if ac.site['k'] == 'bin' else None
+            if not (is_node(rhs) and 'next_timer_seq()' in q.render(fn, rhs)):
+                return False, '%s does not take the sequence from next_timer_seq()' % w
+            adds = [c for c in fn.calls() if (q.callee_name(c) or '').endswith('io_context::add_timer')]
+            if not adds or not all(q.precedes(fn, ac.site, c) for c in adds):
+                return False, '%s queues the timer before it has taken its sequence number' % w
+    nts = fx.fn1(S + '::next_timer_seq')
+    rs = q.returns(nts)
+    if not (len(rs) == 1 and q.render(nts, rs[0].get('e')).replace('this->', '') in ('++m_timer_seq', '(++m_timer_seq)')):
+        return False, 'next_timer_seq() is not `return ++m_timer_seq`'
+    cw = {q.top_function(fx, fn).norm for fn in fx.repo_functions() for ac in q.field_accesses(fn, {S + '::m_timer_seq'}) if ac.is_write}
+    if cw - {S + '::next_timer_seq'}:
+        return False, 'the counter m_timer_seq is also written by %s' % sorted(cw - {S + '::next_timer_seq'})
+    return True, ''
+
+
 def check(run):
     fx = run.fx
     run.clause('R2 closed writer sets of the timer queue, m_expired and m_expiration_time')
@@ -39,7 +127,12 @@ def check(run):
 
     sortedness_rules(run)
     run.clause('equal expiries complete in the order the timers were ARMED: a timer enters the queue (behind its equals) only when it is armed - expires_at / expires_after; any other function that queues it re-inserts it behind timers armed later')
-    engines.r3_caller_table(run, 'sim::asio::io_context::add_timer', {T + '::expires_at': 'arming', T + '::expires_after': 'arming'}, rule='R3', instance='queued-only-when-armed')
+    has_seq = bool(fx.fn(S + '::next_timer_seq', required=False))
+    seq_ok, seq_why = arming_sequence_idiom(run) if has_seq else (False, 'no arming sequence')
+    callers = {T + '::expires_at': 'arming', T + '::expires_after': 'arming'}
+    if seq_ok:
+        callers[T + '::async_wait'] = 'a new wait on a cancelled timer whose expiry is still ahead: the timer keeps the arming sequence it was given, so add_timer puts it back in front of the timers armed after it'
+    engines.r3_caller_table(run, 'sim::asio::io_context::add_timer', callers, rule='R3', instance='queued-only-when-armed')
     run.clause('R4 cancel: early 0 when expired; m_expired=true then remove_timer(this); 1 exactly on the path that fires the abort')
     cn = fx.fn1(T + '::cancel')
     run.touch(cn)
@@ -266,7 +359,16 @@ def sortedness_rules(run):
                 why = 'insertion point computed by %s(%s): not the recognised stable idiom' % (cn_, ', '.join(a))
         else:
             why = 'insertion iterator has no single recognisable definition'
-    if ok:
+    if not ok and fx.fn(S + '::next_timer_seq', required=False):
+        ok2, why2 = arming_sequence_idiom(run)
+        if ok2:
+            run.ok('R4', 'tie-order', S + '::add_timer', at.loc(), 'inserted inside std::equal_range(begin, end, t, timer_compare()) in front of the first entry armed later (arming sequence written by expires_at/expires_after from a growing counter)')
+            ok = None
+        else:
+            why = 'arming-sequence idiom not established: ' + why2
+    if ok is None:
+        pass
+    elif ok:
         run.ok('R4', 'tie-order', S + '::add_timer', at.loc(), 'insert at std::upper_bound(begin, end, t, timer_compare())')
     elif 'lower_bound' in why or not ins:
         run.violation('R4', 'tie-order', S + '::add_timer', at.loc(), why)
